@@ -30,27 +30,23 @@ def outO : Option Nat → String
   | some v => "some " ++ toHex v
   | none => "none"
 
-def parseMat (s : String) : Mat :=
-  match s.splitOn ":" with
-  | [a, b, c, d, e] => ⟨parseHex a, parseHex b, parseHex c, parseHex d, e = "t"⟩
-  | _ => Mat.ident
+def matStr (m : Ruint.Lehmer.Mat) : String :=
+  toHex m.1 ++ ":" ++ toHex m.2.1 ++ ":" ++ toHex m.2.2.1 ++ ":" ++ toHex m.2.2.2.1 ++ ":" ++ boolStr m.2.2.2.2
 
-def matStr (m : Mat) : String :=
-  toHex m.m0 ++ ":" ++ toHex m.m1 ++ ":" ++ toHex m.m2 ++ ":" ++ toHex m.m3 ++ ":" ++ boolStr m.sign
-
-def parseTrace (s : String) : List Mat :=
-  if s = "-" then [] else (s.splitOn ",").map parseMat
-
-def traceStr (l : List Mat) : String :=
+def traceStr (l : List Ruint.Lehmer.Mat) : String :=
   if l.isEmpty then "-" else ",".intercalate (l.map matStr)
 
-/-- number of oracle answers `inv_mod` consumes on `(num, modulus)` with the trace `tr`. -/
-def stepsOf (bits : Nat) (tr : List Mat) (num modulus : Nat) : Nat :=
-  if bits = 0 ∨ modulus = 0 then 0
+/-- the `LehmerMatrix::from` answers of the model along `inv_mod(num, modulus)`. -/
+def traceOf (bits num modulus : Nat) : List Ruint.Lehmer.Mat :=
+  if bits = 0 ∨ modulus = 0 then []
   else
     let b := if num ≥ modulus then num % modulus else num
-    if b = 0 then 0
-    else invSteps bits (b + 1) tr { a := modulus, b := b, t0 := 0, t1 := 1, even := true }
+    if b = 0 then []
+    else invTrace bits (b + 1) { a := modulus, b := b, t0 := 0, t1 := 1, even := true }
+
+def outOO : Option (Option Nat) → String
+  | some r => outO r
+  | none => "panic"
 
 def handle (args : List String) (impl : String) : String × String :=
   match args with
@@ -69,23 +65,14 @@ def handle (args : List String) (impl : String) : String × String :=
     let x := parseHex xs; let m := parseHex zs
     match op with
     | "reduce" => (toHex (reduceMod x m), toHex (if m = 0 then 0 else x % m))
-    | "inv" =>
-        -- model with the empty oracle trace = plain Euclid steps
-        (outO (invMod bits [] x m).1, outO (if bits = 0 then none else invSpec x m))
+    | "inv" => (outOO (invMod bits x m), outO (if bits = 0 then none else invSpec x m))
     | "invtr" =>
-        -- impl = `<result> | <trace of LehmerMatrix::from answers>`; the model consumes that trace
-        match impl.splitOn " | " with
-        | [res, trs] =>
-          let tr := parseTrace trs
-          let r := invMod bits tr x m
-          let k := stepsOf bits tr x m
-          let echo := traceStr (tr.take k) ++ (if k > tr.length then " +" ++ toString (k - tr.length) else "")
-          let want := outO (if bits = 0 then none else invSpec x m)
-          let sp :=
-            if !r.2 then "pred:false hyp matrix-contract violated at oracle answer " ++ toString k
-            else if res = want then "pred:true" else "pred:false want " ++ want
-          (outO r.1 ++ " | " ++ echo, sp)
-        | _ => ("skip", "pred:false malformed impl output")
+        -- impl = `<result> | <answers of the real LehmerMatrix::from along the loop>`; the model prints its own
+        -- matrices (model of `Matrix::from`, C12); the spec column judges the result part
+        let want := outO (if bits = 0 then none else invSpec x m)
+        let res := (impl.splitOn " | ").headD ""
+        (outOO (invMod bits x m) ++ " | " ++ traceStr (traceOf bits x m),
+         if res = want then "pred:true" else "pred:false want " ++ want)
     | _ => ("bad-op", "bad-op")
   | _ => ("bad-op", "bad-op")
 
